@@ -105,10 +105,13 @@ namespace BitSerializer::Convert::Detail
 				throw std::runtime_error("Unknown error");
 			}
 
-			// Check that string does not contain decimal fractions (parsing a float number to integer is not allowed)
+			// Check that string does not contain decimal fractions or exponent (parsing a float number to integer is not allowed)
 			if constexpr (std::is_integral_v<T>)
 			{
-				if (rc.ptr + 1 < str.data() + str.size() && *rc.ptr == '.' && std::isdigit(*(rc.ptr + 1)))
+				const char* endIt = str.data() + str.size();
+				const auto isDigitAt = [endIt](const char* pos) { return pos < endIt && std::isdigit(static_cast<unsigned char>(*pos)); };
+				if (rc.ptr < endIt && ((*rc.ptr == '.' && isDigitAt(rc.ptr + 1))
+					|| ((*rc.ptr == 'e' || *rc.ptr == 'E') && (isDigitAt(rc.ptr + 1) || (rc.ptr + 1 < endIt && (rc.ptr[1] == '+' || rc.ptr[1] == '-') && isDigitAt(rc.ptr + 2))))))
 				{
 					throw std::invalid_argument("Unable to convert string with float number to integer");
 				}
@@ -142,6 +145,13 @@ namespace BitSerializer::Convert::Detail
 		{
 			if (std::isdigit(*startIt))
 			{
+				// Float numbers (like "0.5" or "1e5") are not booleans
+				const bool isFloatNumber = size >= 3 && (startIt[1] == '.' || startIt[1] == 'e' || startIt[1] == 'E')
+					&& (std::isdigit(startIt[2]) || ((startIt[2] == '+' || startIt[2] == '-') && size >= 4 && std::isdigit(startIt[3])));
+				if (isFloatNumber) {
+					throw std::invalid_argument("Unable to convert string with float number to boolean");
+				}
+
 				if (*startIt == '1' && (size == 1 || !std::isdigit(startIt[1])))
 				{
 					ret_Val = true;
